@@ -7,7 +7,7 @@
   * `partStor_grow_*`: `resize_*props` on partially read storages.
   Proof-only file (not imported by the judge).  Core only.
 -/
-import OVM.IO.Ovmb.RoundTripLimits
+import OVM.IO.Ovmb.RoundTripWriter
 namespace OVM.Ovmb
 open OVM.Gen.Ovmb Dec
 
